@@ -57,6 +57,14 @@ func (g *Gen) genCodec(n int) {
 		fs = append(fs, math.Float64bits(f))
 	}
 	fs = append(fs, 0x8000000000000000, 0x000fffffffffffff, 0x0010000000000000, 0x7fefffffffffffff, 0xffefffffffffffff, 0xbff0000000000000)
+	// every binade: 2^k, 1.25·2^k, 2^k + a low bit, the float just below 2^k (the +1 / rotate / shift arithmetic of the
+	// varfloat codec and of its size function changes regime at particular exponents, e.g. 2^64)
+	for k := -70; k <= 70; k++ {
+		p := math.Ldexp(1, k)
+		for _, f := range []float64{p, 1.25 * p, p + math.Ldexp(1, k-50), math.Nextafter(p, 0), 1.5 * p, -p} {
+			fs = append(fs, math.Float64bits(f))
+		}
+	}
 	for i := 0; i < 2000 && i < n; i++ {
 		fs = append(fs, math.Float64bits(float64(r.Intn(1<<20)))) // small integers: the compact case
 		fs = append(fs, math.Float64bits(float64(r.U64()>>11)))   // integers below 2^53
